@@ -394,7 +394,15 @@ func (c *Ctx) inferFn(rule string) *ssa.Function {
 	var found []*ssa.Function
 	for _, fn := range c.Closure(rule, "INF").Sorted() {
 		s := fn.Signature
-		if fn.Parent() == nil && s.Recv() == nil && s.Params().Len() >= 1 && isNamed(s.Params().At(0).Type(), "reflect", "Type") && s.Results().Len() == 2 && c.isPkgNamed(s.Results().At(0).Type(), "Schema") && c.callsSelf(fn) {
+		// a function or method with a reflect.Type parameter that returns (*Schema, error) and recurses
+		hasType := false
+		for k := 0; k < s.Params().Len(); k++ {
+			if isNamed(s.Params().At(k).Type(), "reflect", "Type") {
+				hasType = true
+			}
+		}
+		exported := fn.Object() != nil && fn.Object().Exported()
+		if fn.Parent() == nil && !exported && hasType && s.Results().Len() == 2 && c.isPkgNamed(s.Results().At(0).Type(), "Schema") && c.callsSelf(fn) {
 			found = append(found, fn)
 		}
 	}
